@@ -78,7 +78,6 @@ def run(tier, seed):
     prop_viol = []
     found_new_edges = []
     if avh and coq_ok:
-        sites = lc.Sites()
         base = lc.load_baseline()
         ctx.oblige("baseline:checks/locks_baseline.json present", base is not None)
         res = lc.analyse(ctx, avh, tier, seed, "c15") if base is not None else None
@@ -105,6 +104,7 @@ def run(tier, seed):
             for n in notes[:8]:
                 ctx.notes.append(n)
             base_idx = lc.baseline_edge_index(base)
+            sites = lc.LAST_SITES
             # ---- recorded findings
             replay_known(ctx, avh, sites, base_idx, prop_viol)
             # ---- exploration
